@@ -98,7 +98,7 @@ def build(targets=None):
             rc, out = run(["coq_makefile", "-f", "_CoqProject", "-o", "Makefile"], cwd=COQ)
             if rc != 0:
                 return {"ok": False, "log": out, "gen_status": gen_status, "failed_file": "_CoqProject"}
-        cmd = ["timeout", "1700", "make", "-k", f"-j{NPROC}"] + (targets or [])
+        cmd = ["timeout", "1700", "make", "-k", f"-j{NPROC}", "COQC=timeout 600 coqc"] + (targets or [])
         rc, out = run(cmd, cwd=COQ, timeout=1800)
         failed = re.findall(r'File "\./([^"]+)", line', out) if rc != 0 else []
         return {"ok": rc == 0, "log": out[-20000:], "gen_status": gen_status,
